@@ -266,3 +266,156 @@ package swap
 //@   splitreturns
 //@   assumespre (*PairV2).update: the tail that applies a non-negative step is outside this contract
 //@   ensures [C15] mirrored: old(amount0In.val < 0 || amount1Out.val < 0) ==> viewOf(result) == mirror(after(mirror(old(viewOf(p))), -old(amount1Out.val), -old(amount0In.val), !buy))
+
+//@ # ---------------------------------------------------------------- limit orders: fills, minimum volume, refunds (C14)
+//@ # The stored order with a given id is named by its two amount objects (a pool seen from its other side hands out a
+//@ # mirrored record that shares them): ASSUMED to be what the lazily loading getter returns.
+//@ ghost orderKnown(p *PairV2, id uint32) bool
+//@ ghost orderBuyAmt(p *PairV2, id uint32) *big.Int
+//@ ghost orderSellAmt(p *PairV2, id uint32) *big.Int
+//@ ghost ordersCache() int
+//@ ghost anyBig() *big.Int
+//@ func (*PairV2).getOrder
+//@   trusted
+//@   ensures (result != nil) == orderKnown(p, id)
+//@   ensures result != nil ==> result.Coin0 == p.PairKey.Coin0 && result.Coin1 == p.PairKey.Coin1
+//@   ensures result != nil ==> result.id == id && result.WantBuy == orderBuyAmt(p, id) && result.WantSell == orderSellAmt(p, id) && result.mu != nil && result.oldSortPrice != nil
+//@   ensures orderKnown(p, id) ==> orderBuyAmt(p, id) != nil && orderSellAmt(p, id) != nil && orderBuyAmt(p, id) != orderSellAmt(p, id) && allocated(orderBuyAmt(p, id)) && allocated(orderSellAmt(p, id))
+//@   modifies ordersCache
+//@ func (*Limit).OldSortPrice
+//@   trusted
+//@   modifies ordersCache
+//@ func (*Limit).isKeepRate
+//@   trusted
+//@   modifies ordersCache
+//@ func (*Limit).isEmpty
+//@   serves C14
+//@   requires l != nil ==> l.WantBuy != nil && l.WantSell != nil
+//@   ensures empty == (l == nil || l.WantBuy.val == 0 || l.WantSell.val == 0)
+//@   modifies nothing
+//@ func (*Limit).clone
+//@   serves C14
+//@   requires l != nil ==> l.WantBuy != nil && l.WantSell != nil && l.oldSortPrice != nil
+//@   ensures l == nil ==> result == nil
+//@   ensures l != nil ==> result != nil && fresh(result) && result.id == l.id && result.Owner == l.Owner && result.IsBuy == l.IsBuy && result.PairKey == l.PairKey && result.Height == l.Height
+//@   ensures l != nil ==> result.WantBuy != nil && fresh(result.WantBuy) && result.WantBuy.val == l.WantBuy.val && result.WantSell != nil && fresh(result.WantSell) && result.WantSell.val == l.WantSell.val
+//@   modifies nothing
+//@ # a fill takes exactly the given amounts off the stored order
+//@ func (*PairV2).updateSellOrder
+//@   serves C14
+//@   requires p != nil && orderKnown(p, id) && amount0 != nil && amount1 != nil && amount1 != orderBuyAmt(p, id)
+//@   ensures result != nil && result.id == id && result.WantBuy == orderBuyAmt(p, id) && result.WantSell == orderSellAmt(p, id) && result.WantBuy != nil && result.WantSell != nil && result.oldSortPrice != nil && result.mu != nil
+//@   ensures [C14] filled: orderBuyAmt(p, id).val == old(orderBuyAmt(p, id).val) - old(amount0.val) && orderSellAmt(p, id).val == old(orderSellAmt(p, id).val) - old(amount1.val)
+//@   modifies ordersCache, orderBuyAmt(p, id).val, orderSellAmt(p, id).val
+//@ # C14: after a batch of fills every touched order holds its REMAINDER (stored amounts minus the fill), unless the
+//@ # remainder is non-empty and one of its two sides is below the minimum order volume: then the order is closed (both
+//@ # amounts zero) and a copy carrying the remainder is handed back for the refund. Stated for an arbitrary index anyI().
+//@ func (*PairV2).updateOrders
+//@   serves C14
+//@   let k = anyI()
+//@   let ko = old(orders[k])
+//@   let kid = old(orders[k].id)
+//@   let rb = old(orderBuyAmt(p, orders[k].id).val) - old(orders[k].WantBuy.val)
+//@   let rs = old(orderSellAmt(p, orders[k].id).val) - old(orders[k].WantSell.val)
+//@   let little = !(rb == 0 || rs == 0) && (rb < minimumOrderVolume || rs < minimumOrderVolume)
+//@   requires p != nil
+//@   requires wf: forall i int :: 0 <= i && i < len(orders) ==> orders[i] != nil && orders[i].WantBuy != nil && orders[i].WantSell != nil && orderKnown(p, orders[i].id) && allocated(orders[i]) && allocated(orders[i].WantBuy) && allocated(orders[i].WantSell) && allocated(orderBuyAmt(p, orders[i].id)) && allocated(orderSellAmt(p, orders[i].id))
+//@   requires distinct: forall i int, j int :: 0 <= i && i < j && j < len(orders) ==> orders[i].id != orders[j].id
+//@   # different orders have different amount objects, and a fill either IS the stored order (a cancellation) or shares nothing with any stored order
+//@   requires separate: forall a uint32, b uint32 :: a != b ==> orderBuyAmt(p, a) != orderBuyAmt(p, b) && orderSellAmt(p, a) != orderSellAmt(p, b) && orderBuyAmt(p, a) != orderSellAmt(p, b)
+//@   requires own: forall i int, b uint32 :: 0 <= i && i < len(orders) && b != orders[i].id ==> orders[i].WantBuy != orderBuyAmt(p, b) && orders[i].WantBuy != orderSellAmt(p, b) && orders[i].WantSell != orderBuyAmt(p, b) && orders[i].WantSell != orderSellAmt(p, b)
+//@   requires shape: forall i int :: 0 <= i && i < len(orders) ==> orders[i].WantBuy != orderSellAmt(p, orders[i].id) && orders[i].WantSell != orderBuyAmt(p, orders[i].id)
+//@   ensures [C14] remainder: 0 <= k && k < len(orders) && !little ==> orderBuyAmt(p, kid).val == rb && orderSellAmt(p, kid).val == rs
+//@   ensures [C14] closed: 0 <= k && k < len(orders) && little ==> orderBuyAmt(p, kid).val == 0 && orderSellAmt(p, kid).val == 0
+//@   # every other number keeps its value (stated for an arbitrary number anyBig(), generalised at call sites)
+//@   skolem anyI, anyBig
+//@   let other = old(allocated(anyBig())) && (forall i int :: 0 <= i && i < len(orders) ==> anyBig() != old(orderBuyAmt(p, orders[i].id)) && anyBig() != old(orderSellAmt(p, orders[i].id)))
+//@   ensures others: other ==> anyBig().val == old(anyBig().val)
+//@   modifies ordersCache, bigval
+//@   loop 0 invariant idx: -1 <= rangeindex && rangeindex < len(orders)
+//@   loop 0 invariant others: other ==> anyBig().val == old(anyBig().val)
+//@   loop 0 invariant same: forall i int :: 0 <= i && i < len(orders) ==> orders[i] == old(orders[i])
+//@   loop 0 invariant done: 0 <= k && k <= rangeindex ==> (little ? (orderBuyAmt(p, kid).val == 0 && orderSellAmt(p, kid).val == 0) : (orderBuyAmt(p, kid).val == rb && orderSellAmt(p, kid).val == rs))
+//@   loop 0 invariant ids: forall i int :: 0 <= i && i < len(orders) ==> orders[i].id == old(orders[i].id) && orders[i].WantBuy == old(orders[i].WantBuy) && orders[i].WantSell == old(orders[i].WantSell)
+//@   loop 0 invariant todo1: rangeindex < k && k < len(orders) ==> orderBuyAmt(p, kid).val == old(orderBuyAmt(p, orders[k].id).val)
+//@   loop 0 invariant todo2: rangeindex < k && k < len(orders) ==> orderSellAmt(p, kid).val == old(orderSellAmt(p, orders[k].id).val)
+//@   loop 0 invariant todo3: rangeindex < k && k < len(orders) ==> ko.WantBuy.val == old(orders[k].WantBuy.val)
+//@   loop 0 invariant todo4: rangeindex < k && k < len(orders) ==> ko.WantSell.val == old(orders[k].WantSell.val)
+//@ func (*PairV2).MarkDirtyOrders
+//@   trusted
+//@   modifies ordersCache
+
+//@ # ---------------------------------------------------------------- cancelling / expiring an order (C14, C01)
+//@ ghost pairOf(s *SwapV2, a types.CoinID, b types.CoinID) *PairV2
+//@ ghost orderUsed(p *PairV2, id uint32) bool
+//@ func (*SwapV2).Pair
+//@   trusted
+//@   ensures result == pairOf(s, coin0, coin1)
+//@   ensures result != nil ==> result.PairKey.Coin0 == coin0 && result.PairKey.Coin1 == coin1
+//@   modifies ordersCache
+//@ func (*PairV2).isOrderAlreadyUsed
+//@   trusted
+//@   ensures result == orderUsed(p, id)
+//@   modifies nothing
+//@ func (*PairV2).isDirtyOrder
+//@   serves C14
+//@   requires p != nil && p.dirtyOrders != nil
+//@   ensures result == (id in p.dirtyOrders.list)
+//@   modifies nothing
+//@ func (*Limit).reCalcOldSortPrice
+//@   trusted
+//@   modifies ordersCache
+//@ func (*PairV2).orderSellByIndex
+//@   trusted
+//@   modifies ordersCache
+//@ # the same order seen from the other side of its pool: the two amounts change places, the objects are shared
+//@ func (*Limit).Reverse
+//@   serves C14
+//@   requires l != nil ==> l.mu != nil
+//@   ensures l == nil ==> result == nil
+//@   ensures l != nil ==> result != nil && fresh(result) && result.WantBuy == l.WantSell && result.WantSell == l.WantBuy && result.IsBuy == !l.IsBuy && result.id == l.id && result.Owner == l.Owner && result.Coin0 == l.Coin1 && result.Coin1 == l.Coin0 && result.oldSortPrice == l.oldSortPrice && result.mu == l.mu
+//@   modifies nothing
+//@ # C14: cancelling or expiring returns exactly the UNFILLED amount: the amount still stored for the order when it has
+//@ # been touched in this block (the given record is then a stale copy of the committed state), the given record's amount
+//@ # otherwise; the ledger is debited by the same amount in the coin returned; afterwards nothing is left of the order;
+//@ # an order already used up returns nothing.
+//@ func (*SwapV2).removeLimitOrder
+//@   serves C14 C01
+//@   splitreturns
+//@   let c0 = order.IsBuy ? order.Coin1 : order.Coin0
+//@   let c1 = order.IsBuy ? order.Coin0 : order.Coin1
+//@   let sellAmt = order.IsBuy ? order.WantBuy : order.WantSell
+//@   let buyAmt = order.IsBuy ? order.WantSell : order.WantBuy
+//@   let pr = pairOf(s, c0, c1)
+//@   let id = order.id
+//@   let touched = id in pr.dirtyOrders.list
+//@   requires s != nil && s.bus != nil && s.bus.checker != nil && order != nil && order.WantBuy != nil && order.WantSell != nil && order.WantBuy != order.WantSell && order.mu != nil && order.oldSortPrice != nil
+//@   requires pair: pr != nil && pr.dirtyOrders != nil && pr.lockOrders != nil
+//@   requires known: orderKnown(pr, id) && allocated(orderBuyAmt(pr, id)) && allocated(orderSellAmt(pr, id))
+//@   requires separate: forall a uint32, b uint32 :: a != b ==> orderBuyAmt(pr, a) != orderBuyAmt(pr, b) && orderSellAmt(pr, a) != orderSellAmt(pr, b) && orderBuyAmt(pr, a) != orderSellAmt(pr, b)
+//@   requires own: forall b uint32 :: b != id ==> buyAmt != orderBuyAmt(pr, b) && buyAmt != orderSellAmt(pr, b) && sellAmt != orderBuyAmt(pr, b) && sellAmt != orderSellAmt(pr, b)
+//@   requires shape: buyAmt != orderSellAmt(pr, id) && sellAmt != orderBuyAmt(pr, id)
+//@   ensures result1 != nil
+//@   ensures [C14] unfilled: old(touched) && !old(orderUsed(pr, id)) && old(orderBuyAmt(pr, id).val != 0 && orderSellAmt(pr, id).val != 0) ==> result1.val == old(orderSellAmt(pr, id).val) && result0 == old(c1)
+//@   ensures [C14] untouched: !old(touched) ==> result1.val == old(sellAmt.val) && result0 == old(c1)
+//@   ensures [C14] usedup: old(touched) && (old(orderUsed(pr, id)) || old(orderBuyAmt(pr, id).val == 0 || orderSellAmt(pr, id).val == 0)) ==> result1.val == 0
+//@   ensures [C14,C01] reported: ledgerDelta(s.bus.checker, result0) == old(ledgerDelta(s.bus.checker, result0)) - result1.val || result1.val == 0
+//@   ensures [C14] nothingleft: old(touched) && !old(orderUsed(pr, id)) && old(orderBuyAmt(pr, id).val != 0 && orderSellAmt(pr, id).val != 0) ==> orderSellAmt(pr, id).val == 0 && orderBuyAmt(pr, id).val == 0
+//@ # the owner recorded for an order (abstract view of the order book; ASSUMED to be what the getter returns)
+//@ ghost orderExists(id uint32) bool
+//@ ghost orderOwner(id uint32) types.Address
+//@ func iface RSwap.GetOrder
+//@   ensures (result != nil) == orderExists(arg0)
+//@   ensures result != nil ==> result.Owner == orderOwner(arg0)
+//@   modifies nothing
+//@ func iface EditableChecker.IsOrderAlreadyUsed
+//@   modifies nothing
+
+//@ # ---------------------------------------------------------------- lock discipline (C25)
+//@ guarded SwapV2.pairs by muPairs
+//@ guarded orderList.list by mu
+//@ # helpers that are only called with the lock held
+//@ func (*PairV2).order #lockpre
+//@   requires wheld(p.orders.mu)
+//@ func (*Pair).order #lockpre
+//@   requires wheld(p.orders.mu)
